@@ -1330,8 +1330,8 @@ def section_xml_other():
             except pywbem.ParseError:
                 pass
             except OverflowError as e:
-                V('known:int-type-from-infinity-raises-OverflowError', via='TupleParser.unpack_single_value',
-                  type=tname, input=text, observed=str(e)[:100])
+                V('known:xml-int-text-INF-raises-OverflowError', via='TupleParser.unpack_single_value',
+                  type=tname, text=text, observed=str(e)[:100])
             except Exception as e:  # pylint: disable=broad-except
                 V('xml-int-text-raises-' + type(e).__name__, type=tname, text=text)
         for text in ('abc', '', '0x', '12a', '1 2', '0b1', 'NaN'):
